@@ -57,7 +57,7 @@ mod raw {
         posix::poll(&mut fds, timeout)?;
 
         Ok((
-            fds[0].test(posix::POLLOUT | posix::POLLHUP),
+            fds[0].test(posix::POLLOUT | posix::POLLHUP | posix::POLLERR),
             fds[1].test(posix::POLLIN | posix::POLLHUP),
             fds[2].test(posix::POLLIN | posix::POLLHUP),
         ))
